@@ -53,6 +53,13 @@ Definition mix_factory_choice (use : bool) (ty : kernel_type) (stoch node_at ber
 Definition mix_factory_draws (use : bool) (ty : kernel_type) (stoch node_at : bool) : bool :=
   mix_draws_bernoulli use (factory_anthropogenic_eligible ty stoch node_at).
 
+(* create_dynamic_kernel may leave the anthropogenic kernel out (null pointer)
+   when it is disabled: the mix built by it dereferences a null kernel iff it
+   asks for eligibility while the kernel was not built.  (Calling the kernel is
+   preceded by the eligibility test in the translated expression.) *)
+Definition dynamic_mix_null_dereference (use : bool) : bool :=
+  mix_queries_eligibility use && negb (dynamic_kernel_anthro_built use).
+
 (* ---------- specification side (written by hand) ---------- *)
 (* The documented dispatch: the three named kernels first, every other type is a
    radial kernel type, run stochastically or deterministically. *)
